@@ -12,6 +12,8 @@
 #include <bee2/math/gfp.h>
 #include <bee2/math/ec.h>
 #include <bee2/math/ecp.h>
+#include <bee2/math/gf2.h>
+#include <bee2/math/ec2.h>
 #include <bee2/crypto/bign.h>
 #include <bee2/crypto/bign96.h>
 #include <bee2/crypto/g12s.h>
@@ -20,9 +22,24 @@ static void handle(int argc, char** argv);
 
 #define MAXNO 96
 
+/* the scalar routines depend on the word size (lengths are in words, the NAF window is chosen from
+   the bit length m * B_PER_W): their op names carry it, so that a line is never run on the wrong build */
+#if (B_PER_W == 64)
+#define MULOP "mul"
+#define HASOP "hasorder"
+#define ADDMULOP "addmul"
+#elif (B_PER_W == 32)
+#define MULOP "mul32"
+#define HASOP "hasorder32"
+#define ADDMULOP "addmul32"
+#else
+#error "unsupported word size"
+#endif
+
 static qr_o* F;
 static ec_o* EC;
 static size_t N, NO;
+static int BIN;	/* curve over GF(2^m) (ec2.c, Lopez-Dahab), field token "b:m:k1:k2:k3" */
 static char cur_p[256], cur_A[256], cur_B[256];
 static void* STACK;
 
@@ -86,6 +103,32 @@ static int setup(const char* p, const char* A, const char* B)
 	cur_p[0] = 0;
 	if (strlen(p) > 200 || strlen(A) > 200 || strlen(B) > 200)
 		return 0;
+	BIN = p[0] == 'b' && p[1] == ':';
+	if (BIN)
+	{
+		size_t pp[4] = { 0, 0, 0, 0 };
+		if (sscanf(p + 2, "%zu:%zu:%zu:%zu", pp, pp + 1, pp + 2, pp + 3) != 4 || pp[0] < 3 || pp[0] > 8 * MAXNO - 8)
+			return 0;
+		NO = O_OF_B(pp[0]);
+		N = W_OF_B(pp[0]);
+		F = (qr_o*)xalloc(gf2Create_keep(pp[0]));
+		STACK = xalloc(gf2Create_deep(pp[0]));
+		if (!gf2Create(F, pp, STACK))
+			return drop(), 0;
+		free(STACK);
+		if (!hex2le(buf, NO, A) || !hex2le(buf + NO, NO, B))
+			return drop(), 0;
+		EC = (ec_o*)xalloc(ec2CreateLD_keep(N));
+		STACK = xalloc(ec2CreateLD_deep(N, F->deep));
+		if (!ec2CreateLD(EC, F, buf, buf + NO, STACK))
+			return drop(), 0;
+		free(STACK);
+		deep = utilMax(5, EC->deep, ec2IsOnA_deep(N, F->deep), ec2AddAA_deep(N, F->deep),
+			ec2SubAA_deep(N, F->deep), F->deep);
+		STACK = xalloc(deep);
+		strcpy(cur_p, p), strcpy(cur_A, A), strcpy(cur_B, B);
+		return 1;
+	}
 	NO = hex_octets(p);
 	if (NO == 0 || NO > MAXNO || !hex2le(buf, NO, p) || buf[NO - 1] == 0)
 		return 0;
@@ -190,17 +233,17 @@ static void single(const char* op, int al, int argc, char** argv)
 	else if (al == AL_ABC) { if (!kb || ka != kb) { printf("bad-op"); goto done; } pb = a, pc = a; }
 	if (!strcmp(op, "neg")) ecNeg(pc, pa, EC, STACK), put_proj(pc);
 	else if (!strcmp(op, "dbl")) ecDbl(pc, pa, EC, STACK), put_proj(pc);
-	else if (!strcmp(op, "tpl")) EC->tpl(pc, pa, EC, STACK), put_proj(pc);
+	else if (!strcmp(op, "tpl")) { if (EC->tpl) EC->tpl(pc, pa, EC, STACK), put_proj(pc); else printf("-"); }
 	else if (!strcmp(op, "toa")) { if (ecToA(pc, pa, EC, STACK)) put_aff(pc); else printf("O"); }
 	else if (!strcmp(op, "dbla")) ecDblA(pc, pa, EC, STACK), put_proj(pc);
 	else if (!strcmp(op, "froma")) ecFromA(pc, pa, EC, STACK), put_proj(pc);
-	else if (!strcmp(op, "nega")) ecpNegA(pc, pa, EC), put_aff(pc);
+	else if (!strcmp(op, "nega")) (BIN ? ec2NegA(pc, pa, EC) : ecpNegA(pc, pa, EC)), put_aff(pc);
 	else if (!strcmp(op, "add")) ecAdd(pc, pa, pb, EC, STACK), put_proj(pc);
 	else if (!strcmp(op, "sub")) ecSub(pc, pa, pb, EC, STACK), put_proj(pc);
 	else if (!strcmp(op, "adda")) ecAddA(pc, pa, pb, EC, STACK), put_proj(pc);
 	else if (!strcmp(op, "suba")) ecSubA(pc, pa, pb, EC, STACK), put_proj(pc);
-	else if (!strcmp(op, "addaa")) { if (ecpAddAA(pc, pa, pb, EC, STACK)) put_aff(pc); else printf("O"); }
-	else if (!strcmp(op, "subaa")) { if (ecpSubAA(pc, pa, pb, EC, STACK)) put_aff(pc); else printf("O"); }
+	else if (!strcmp(op, "addaa")) { if (BIN ? ec2AddAA(pc, pa, pb, EC, STACK) : ecpAddAA(pc, pa, pb, EC, STACK)) put_aff(pc); else printf("O"); }
+	else if (!strcmp(op, "subaa")) { if (BIN ? ec2SubAA(pc, pa, pb, EC, STACK) : ecpSubAA(pc, pa, pb, EC, STACK)) put_aff(pc); else printf("O"); }
 done:
 	free(a), free(b), free(c);
 }
@@ -239,11 +282,22 @@ static void pair(int argc, char** argv)
 		return;
 	}
 	hasP = !qrIsZero(u1, F), hasQ = !qrIsZero(u2, F);
-	/* (u^2 x, u^3 y, u) */
+	if (BIN)
+	{
+		/* Lopez-Dahab: (u x, u^2 y, u) */
+		qrMul(r, u1, x1, F, STACK), fe_hex(s[0], r);
+		qrSqr(w, u1, F, STACK), qrMul(r, w, y1, F, STACK), fe_hex(s[1], r), fe_hex(s[2], u1);
+		qrMul(r, u2, x2, F, STACK), fe_hex(s[3], r);
+		qrSqr(w, u2, F, STACK), qrMul(r, w, y2, F, STACK), fe_hex(s[4], r), fe_hex(s[5], u2);
+	}
+	else
+	{
+	/* Jacobian: (u^2 x, u^3 y, u) */
 	qrSqr(w, u1, F, STACK), qrMul(r, w, x1, F, STACK), fe_hex(s[0], r);
 	qrMul(w, w, u1, F, STACK), qrMul(r, w, y1, F, STACK), fe_hex(s[1], r), fe_hex(s[2], u1);
 	qrSqr(w, u2, F, STACK), qrMul(r, w, x2, F, STACK), fe_hex(s[3], r);
 	qrMul(w, w, u2, F, STACK), qrMul(r, w, y2, F, STACK), fe_hex(s[4], r), fe_hex(s[5], u2);
+	}
 	free(t);
 #define SEP printf(";")
 #define SKIP(cond, stmt) do { if (cond) { stmt; } else printf("-"); } while (0)
@@ -333,26 +387,27 @@ static void handle(int argc, char** argv)
 		{
 			if (!hex2le(buf, O_OF_W(N), argv[i])) { ok = 0; break; }
 			wwFrom(a + i * N, buf, O_OF_W(N));
-			if (wwCmp(a + i * N, F->mod, N) < 0 && !fe(a + i * N, argv[i])) ok = 0;
+			if (!BIN && wwCmp(a + i * N, F->mod, N) < 0 && !fe(a + i * N, argv[i])) ok = 0;
 		}
-		if (!ok) printf("bad-op"); else printf("%d", ecpIsOnA(a, EC, STACK) ? 1 : 0);
+		if (!ok) printf("bad-op");
+		else printf("%d", (BIN ? ec2IsOnA(a, EC, STACK) : ecpIsOnA(a, EC, STACK)) ? 1 : 0);
 		free(a);
 	}
-	else if (!strcmp(op, "swu") && argc == 1)
+	else if (!strcmp(op, "swu") && argc == 1 && !BIN)
 	{
 		word* a = load(argv, 1, N);
 		word* b = (word*)xalloc(O_OF_W(2 * N));
 		if (!a) printf("range"); else ecpSWU(b, a, EC, STACK), put_aff(b);
 		free(a), free(b);
 	}
-	else if ((!strcmp(op, "mul") || !strcmp(op, "hasorder")) && argc == 4)
+	else if ((!strcmp(op, MULOP) || !strcmp(op, HASOP)) && argc == 4)
 	{
 		size_t m = (size_t)strtoull(argv[3], 0, 16);
 		word* a = load(argv, 2, 2 * N);
 		word* b = (word*)xalloc(O_OF_W(2 * N));
 		word* d = m && m < 64 ? scalar(argv[2], m) : 0;
 		if (!a || !d) printf(a ? "bad-op" : "range");
-		else if (!strcmp(op, "mul"))
+		else if (!strcmp(op, MULOP))
 		{
 			void* st = xalloc(ecMulA_deep(N, EC->d, EC->deep, m));
 			if (ecMulA(b, a, EC, d, m, st)) put_aff(b); else printf("O");
@@ -366,7 +421,7 @@ static void handle(int argc, char** argv)
 		}
 		free(a), free(b), free(d);
 	}
-	else if (!strcmp(op, "addmul") && argc >= 3 && argc % 3 == 0 && argc <= 12)
+	else if (!strcmp(op, ADDMULOP) && argc >= 3 && argc % 3 == 0 && argc <= 12)
 	{
 		/* x y d triples; the word length of each scalar is the minimal one, at least 1 */
 		size_t k = (size_t)argc / 3, i, m[4];
@@ -377,7 +432,7 @@ static void handle(int argc, char** argv)
 		for (i = 0; i < k; ++i)
 		{
 			/* leading zeros of the hex string count: the generator pads to get longer m[i] */
-			m[i] = W_OF_O((strlen(argv[3 * i + 2]) + 1) / 2);
+			m[i] = W_OF_O((strlen(argv[3 * i + 2]) + 1) / 2);	/* words of THIS build */
 			if (m[i] == 0) m[i] = 1;
 			a[i] = load(argv + 3 * i, 2, 2 * N);
 			d[i] = scalar(argv[3 * i + 2], m[i]);
